@@ -210,16 +210,23 @@ def _unpack_pre_snap_posts(
 
 
 def _assert_resolved_kwargs_valid(
-    postconditions: List[Contract], resolved_kwargs: Mapping[str, Any]
+    postconditions: List[Contract],
+    resolved_kwargs: Mapping[str, Any],
+    reserved_parameters: Iterable[str] = (),
 ) -> Optional[TypeError]:
-    """Check that the resolved kwargs of a decorated function are valid."""
+    """
+    Check that the resolved kwargs of a decorated function are valid.
+
+    The ``reserved_parameters`` are the parameters of the function which bear a reserved name. They need to be given
+    as well since the variable parameters (``*result``, ``**OLD``) are not among the resolved kwargs of a call.
+    """
     if postconditions:
-        if "result" in resolved_kwargs:
+        if "result" in resolved_kwargs or "result" in reserved_parameters:
             return TypeError(
                 "Unexpected argument 'result' in a function decorated with postconditions."
             )
 
-        if "OLD" in resolved_kwargs:
+        if "OLD" in resolved_kwargs or "OLD" in reserved_parameters:
             return TypeError(
                 "Unexpected argument 'OLD' in a function decorated with postconditions."
             )
@@ -807,6 +814,11 @@ def decorate_with_checker(func: CallableT) -> CallableT:
     # Determine the default argument values
     kwdefaults = resolve_kwdefaults(sign=sign)
 
+    # The parameters which must not be there if the function has postconditions, whatever their kind
+    reserved_parameters = frozenset(
+        name for name in sign.parameters if name in ("result", "OLD")
+    )
+
     # (mristin, 2021-02-16)
     # Admittedly, this branching on sync/async is absolutely monstrous.
     # However, I couldn't find out an easier way to refactor the code so that it supports async.
@@ -852,7 +864,9 @@ def decorate_with_checker(func: CallableT) -> CallableT:
                 )
 
                 type_error = _assert_resolved_kwargs_valid(
-                    postconditions, resolved_kwargs
+                    postconditions=postconditions,
+                    resolved_kwargs=resolved_kwargs,
+                    reserved_parameters=reserved_parameters,
                 )
                 if type_error is not None:
                     raise type_error
@@ -933,7 +947,9 @@ def decorate_with_checker(func: CallableT) -> CallableT:
                 )
 
                 type_error = _assert_resolved_kwargs_valid(
-                    postconditions=postconditions, resolved_kwargs=resolved_kwargs
+                    postconditions=postconditions,
+                    resolved_kwargs=resolved_kwargs,
+                    reserved_parameters=reserved_parameters,
                 )
                 if type_error is not None:
                     raise type_error
